@@ -446,6 +446,7 @@ func ttlProbe(srv *rig.Server, i int, asked int64) (early, later bool, waited ti
 func main() {
 	a := common.ParseArgs()
 	run := common.NewRun(a, "C14", "HV.Conc.BLock")
+	run.Shard = 40
 	run.Meta.Rule = "concurrent: 8-64 goroutines, 1-4 keys, TTL 5-40 ms, random holds, cancellations, stale/duplicate/foreign/wrong-key unlocks on one real lock; the per-key hook+API trace is judged by the oracle and replayed through Conc/BLock.v; non-trivial = at least one caller was enqueued behind another (contention); serial: random op sequences over <= 3 callers on one key; ttl: real gateway with a TTL below/above the floor and a cancelled waiting context"
 	rng := common.NewRng(a.Seed, "C14")
 	rig.Quiet()
